@@ -189,6 +189,10 @@ def exec (n : Net) (toks : List String) : Option (String × Net) :=
           else some (withLogN n (n.assume p fuel))
       | "pop", [] => if n.sat.rootLevel then some ("root", n) else some ("ok", n.pop)
       | "next", [] => if !n.sat.queue.isEmpty then some ("queue", n) else some (withLogN n (n.next fuel))
+      | "bj", [k] => k.toNat?.bind fun k =>
+          -- a theory reports the negations of the `k` most recent trail literals as a conflict
+          if !(n.sat.queue.isEmpty && 1 ≤ k && k ≤ n.sat.trail.length) then some ("pre", n)
+          else some (withLogN n (n.backtrackAnalyzeAndBackjump ((n.sat.trail.take k).map Lit.neg) fuel))
       | "check", ls => (parseLits ls).bind fun ls =>
           if !inRange n.sat ls then none
           else
